@@ -386,6 +386,17 @@ class C09(BaseCheck):
                         continue      # the second grid's rows would simply join the first grid's text
                     deliveries.append({'text': base[:off] + text2, 'faults': [kind + '@grid2'],
                                        'must_reject': (why + ' (in the second grid of the text)') if why else None})
+                # round n: every grid of a text is held to the same header rules.  The version of the second grid is
+                # respelled (an escape for its first digit, a blank or a tag around it); whether such a header is
+                # acceptable is the library's call, but it has to be the same call for a first and for a later grid:
+                # a grid text refused on its own must not be let in behind another grid
+                t2 = d2.text
+                if t2.startswith('ver:"') and t2[5:6].isdigit():
+                    how = r.choice(['escape', 'escape', 'escape-upper', 'dollar', 'blank', 'tag-first'])
+                    text2 = {'escape': 'ver:"\\u003' + t2[5] + t2[6:], 'escape-upper': 'ver:"\\U003' + t2[5] + t2[6:],
+                             'dollar': 'ver:"\\$' + t2[5:], 'blank': 'ver: "' + t2[5:], 'tag-first': 'x ' + t2}[how]
+                    deliveries.append({'text': base[:off] + text2, 'faults': ['respelled-version@grid2'], 'must_reject': None,
+                                       'alone': text2})
                 d = None
             else:
                 case['class'] = 'peer'
@@ -594,6 +605,13 @@ class C09(BaseCheck):
                 if warm:
                     maxratio = max(maxratio, healthy['clock'] / float(max(warm, 50)))
                 bad = self._judge(case, d, healthy, text)
+                if not bad and d.get('alone') and oc == 'grid':
+                    alone = self._parse_once(case, d['alone'], budget, out)
+                    if alone['outcome'] == 'raise' and isinstance(alone['exc'], self.ZPE):
+                        bad = ('accepted-broken', {'why': 'the last grid of the text is refused when delivered on its own (%s) but '
+                                                          'accepted behind another grid' % str(alone['exc'])[:80],
+                                                   'fault': d['faults'], 'returned': healthy.get('repr')})
+                    stats['probe.later_grid_checked_alone'] = stats.get('probe.later_grid_checked_alone', 0) + 1
                 if bad:
                     viol = {'clause': bad[0], 'detail': dict(bad[1], delivery=di, text=text, faults=d['faults'], base=base)}
                     break
